@@ -14,6 +14,7 @@ TraitsVerif/Lemmas/Obs*.lean.
 -/
 import TraitsVerif.Lemmas.ObsAtomic
 import TraitsVerif.Lemmas.ObsMutate
+import TraitsVerif.Lemmas.ObsInv
 namespace TraitsVerif.Props.C09
 open TraitsVerif TraitsVerif.Model.Obs
 
@@ -120,6 +121,47 @@ theorem C09_calls_commute_on_counts (h : Heap) (k k' : HKey) (g g' : Graph) (x x
       cnt H o q + cntItems (hookList h k true g x) o q + cntItems (hookList h k' true g' x') o q := by
   intro o q
   rw [(addRemove_add h k' g' true x' _ h2).2.1, (addRemove_add h k g true x H h1).2.1]
+
+/-! ### interleaving with mutations: registration and removal move the refinement invariant
+
+`HooksEqReach h H regs` (hooks = from-scratch hooks of all active registrations `regs` in
+the current heap) is preserved by the mutations of `C08_hooks_eq_reach_partial`; the two
+theorems below add / remove a registration from `regs`.  Together: for ANY interleaving
+of observe / unobserve calls of several handlers, expressions and roots with such
+mutations, every removal of an active registration succeeds — whatever happened to
+the object graph in between — and when all are removed the hooks hold nothing
+(`specCnt h [] = 0`). -/
+
+theorem C09_register_under_invariant (h : Heap) (H : Hooks) (regs : List Reg) (r : Reg)
+    (hinv : HooksEqReach h H regs) (hok : (addRemove h r.k false true r.g (some r.x) H).err = none) :
+    HooksEqReach h (addRemove h r.k false true r.g (some r.x) H).H (r :: regs) := by
+  obtain ⟨_, hc, hw⟩ := addRemove_add h r.k r.g true (some r.x) H hok
+  refine ⟨hw hinv.1, ?_⟩
+  intro o q
+  rw [hc, hinv.2]
+  simp [specCnt]; omega
+
+theorem C09_unregister_under_invariant (h : Heap) (H : Hooks) (pre post : List Reg) (r : Reg)
+    (hinv : HooksEqReach h H (pre ++ r :: post)) (hok : walkOk h true r.g (some r.x) = true) :
+    (addRemove h r.k true true r.g (some r.x) H).err = none ∧
+    HooksEqReach h (addRemove h r.k true true r.g (some r.x) H).H (pre ++ post) := by
+  have hspec : ∀ o q, specCnt h (pre ++ r :: post) o q =
+      specCnt h (pre ++ post) o q + cntItems (hookList h r.k true r.g (some r.x)) o q := by
+    intro o q
+    simp only [specCnt, List.map_append, List.map_cons, List.sum_append, List.sum_cons]
+    omega
+  have hle : ∀ o q, cntItems (hookList h r.k true r.g (some r.x)) o q ≤ cnt H o q := by
+    intro o q; rw [hinv.2, hspec]; omega
+  obtain ⟨e, c, w⟩ := addRemove_remove h r.k r.g true (some r.x) H hinv.1 hok hle
+  refine ⟨e, w, ?_⟩
+  intro o q
+  have := c o q
+  rw [hinv.2, hspec] at this
+  omega
+
+/-- with no registration left, nothing is held anywhere -/
+theorem C09_nothing_left (h : Heap) (H : Hooks) (hinv : HooksEqReach h H []) : ∀ o q, cnt H o q = 0 := by
+  intro o q; rw [hinv.2]; rfl
 
 /-! ### one removal too many -/
 
